@@ -22,6 +22,7 @@ EXPLANATION = (
     "function semantics."
     " Also decided (rules added after the fifth blind round): (R7.7) a typed matcher built for a nested record receives the whole query (type path and attribute chain) of the matcher that builds it; (R7.8) the interpreted namespace, in which generator variables are bound, is rebuilt before every evaluation."
     " Rules added after the sixth blind round: (R7.9) a generator variable is unbound when its generator ends; (R7.10) the expression text reaches compile() as given; (R7.11) get_field returns the plain three-argument getattr."
+    " Rules added after the seventh blind round: (R7.12) in field_equals / field_contains every needle that is compared with or searched in the field value has been lowered on every path on which the nocase flag is on - decided by reaching definitions and reachability under the flag, through locals, loops, comprehensions and lists built in place."
 )
 RULE_SUMMARY = ("instances: (node kind, field) pairs, table entries, special methods; non-trivial = required reading a branch "
                 "body, a lambda or a method body")
